@@ -1,25 +1,26 @@
 import KvarnModel.Negotiate
 /-! C06, the list parser against the header grammar: for every *well-formed* value-quality list
-(`coding [ OWS ";" OWS "q=" qvalue ]` items, any amount of optional whitespace before and after every item, before
-the `;` and after it), `list_header` returns exactly the codings with the quality class of their q-value — so a coding
+(`coding [ OWS ";" OWS "q=" qvalue ]` items, any amount of optional whitespace — spaces and tabs, mixed — before and
+after every item, before the `;` and after it), `list_header` returns exactly the codings with the quality class of their q-value — so a coding
 the client disabled with `q=0` is never reported as acceptable, however the header is spaced.
 (Before the repair F29 this theorem is false: `br;q=0 , gzip` parsed `br` with quality 1.) -/
 namespace Negotiate
 open Rust
 
-def sp (n : Nat) : Bytes := List.replicate n SP
+/-- optional whitespace: a string of spaces and tabs -/
+def Ows (w : Bytes) : Prop := ∀ b ∈ w, isWs b = true
 
 structure Item where
-  lead : Nat                                -- spaces before the coding
+  lead : Bytes                              -- whitespace before the coding
   name : Bytes
-  weight : Option (Nat × Nat × Bytes)       -- spaces before `;`, spaces after `;`, the q-value
-  trail : Nat                               -- spaces before the `,` (or the end)
+  weight : Option (Bytes × Bytes × Bytes)   -- whitespace before `;`, whitespace after `;`, the q-value
+  trail : Bytes                             -- whitespace before the `,` (or the end)
 
 def Item.wt (it : Item) : Bytes :=
   match it.weight with
   | none => []
-  | some (a, b, qv) => sp a ++ [SEMI] ++ sp b ++ [LQ, EQ] ++ qv
-def Item.render (it : Item) : Bytes := sp it.lead ++ it.name ++ it.wt ++ sp it.trail
+  | some (a, b, qv) => a ++ [SEMI] ++ b ++ [LQ, EQ] ++ qv
+def Item.render (it : Item) : Bytes := it.lead ++ it.name ++ it.wt ++ it.trail
 
 def renderAll : List Item → Bytes
   | [] => []
@@ -34,22 +35,25 @@ structure Item.Ok (it : Item) : Prop where
   nameHead : ∃ c r, it.name = c :: r ∧ isAlpha c = true
   nameChars : ∀ b ∈ it.name, b ≠ SP ∧ b ≠ 9 ∧ b ≠ COMMA ∧ b ≠ SEMI
   qv : ∀ a b qv, it.weight = some (a, b, qv) → qv ≠ [] ∧ ∀ c ∈ qv, c ≠ SP ∧ c ≠ 9 ∧ c ≠ COMMA ∧ c ≠ LQ
+  lead : Ows it.lead
+  trail : Ows it.trail
+  wsA : ∀ a b qv, it.weight = some (a, b, qv) → Ows a ∧ Ows b
 
 /-! ### trimming -/
 
-theorem sp_succ (n : Nat) : sp (n + 1) = SP :: sp n := by simp [sp, List.replicate_succ]
-theorem sp_length (n : Nat) : (sp n).length = n := by simp [sp]
-theorem sp_reverse (n : Nat) : (sp n).reverse = sp n := by simp [sp]
-theorem mem_sp {n : Nat} {b : UInt8} (h : b ∈ sp n) : b = SP := by
-  simp only [sp, List.mem_replicate] at h; exact h.2
+theorem ows_nil : Ows [] := by intro b h; simp at h
+theorem ows_cons {a : UInt8} {w : Bytes} (h : Ows (a :: w)) : isWs a = true ∧ Ows w :=
+  ⟨h a (by simp), fun b hb => h b (by simp [hb])⟩
+theorem ows_reverse {w : Bytes} (h : Ows w) : Ows w.reverse := fun b hb => h b (by simpa using hb)
 
-theorem dropWhile_sp (n : Nat) (x : Bytes) : (sp n ++ x).dropWhile isWs = x.dropWhile isWs := by
-  induction n with
-  | zero => simp [sp]
-  | succ n ih =>
-    rw [sp_succ, List.cons_append, List.dropWhile_cons]
-    have : isWs SP = true := by decide
-    rw [this]; simpa using ih
+theorem dropWhile_ws : ∀ (w : Bytes), Ows w → ∀ x : Bytes, (w ++ x).dropWhile isWs = x.dropWhile isWs := by
+  intro w
+  induction w with
+  | nil => intro _ x; rfl
+  | cons a w ih =>
+    intro hw x
+    rw [List.cons_append, List.dropWhile_cons, (ows_cons hw).1]
+    exact ih (ows_cons hw).2 x
 
 theorem dropWhile_head (p : UInt8 → Bool) (c : UInt8) (r : Bytes) (hc : p c = false) : (c :: r).dropWhile p = c :: r := by
   simp [List.dropWhile_cons, hc]
@@ -65,19 +69,19 @@ theorem notWs_of (b : UInt8) (h1 : b ≠ SP) (h2 : b ≠ 9) : isWs b = false := 
   simp only [isWs, Bool.or_eq_false_iff, beq_eq_false_iff_ne]
   exact ⟨h1, h2⟩
 
-/-- a string without whitespace, padded with spaces on both sides, trims back to itself -/
-theorem trimWs_pad (m n : Nat) (x : Bytes) (hx : ∀ b ∈ x, isWs b = false) : trimWs (sp m ++ x ++ sp n) = x := by
+/-- a string without whitespace, padded with whitespace on both sides, trims back to itself -/
+theorem trimWs_pad (w1 w2 : Bytes) (h1 : Ows w1) (h2 : Ows w2) (x : Bytes) (hx : ∀ b ∈ x, isWs b = false) :
+    trimWs (w1 ++ x ++ w2) = x := by
   unfold trimWs
-  rw [List.append_assoc, dropWhile_sp]
+  rw [List.append_assoc, dropWhile_ws w1 h1]
   cases x with
   | nil =>
     simp only [List.nil_append]
-    rw [dropWhile_all isWs (sp n) (fun b hb => by rw [mem_sp hb]; decide)]
+    rw [dropWhile_all isWs w2 h2]
     rfl
   | cons c r =>
     rw [List.cons_append, dropWhile_head isWs c _ (hx c (by simp))]
-    rw [← List.cons_append, List.reverse_append, sp_reverse, dropWhile_sp]
-    -- the reversed string starts with the last byte of `x`, which is not whitespace
+    rw [← List.cons_append, List.reverse_append, dropWhile_ws w2.reverse (ows_reverse h2)]
     cases hrev : (c :: r).reverse with
     | nil => simp at hrev
     | cons d r' =>
@@ -87,18 +91,18 @@ theorem trimWs_pad (m n : Nat) (x : Bytes) (hx : ∀ b ∈ x, isWs b = false) : 
       rw [dropWhile_head isWs d r' (hx d hd), ← hrev, List.reverse_reverse]
 
 /-- trimming keeps a non-whitespace first byte first -/
-theorem trimWs_head (m : Nat) (c : UInt8) (r : Bytes) (hc : isWs c = false) : ∃ y, trimWs (sp m ++ c :: r) = c :: y := by
+theorem trimWs_head (w : Bytes) (hw : Ows w) (c : UInt8) (r : Bytes) (hc : isWs c = false) : ∃ y, trimWs (w ++ c :: r) = c :: y := by
   unfold trimWs
-  rw [dropWhile_sp, dropWhile_head isWs c r hc, List.reverse_cons]
+  rw [dropWhile_ws w hw, dropWhile_head isWs c r hc, List.reverse_cons]
   have : ∀ z : Bytes, ∃ y, (z ++ [c]).dropWhile isWs = y ++ [c] := by
     intro z
     induction z with
-    | nil => exact ⟨[], by simp [List.dropWhile, hc]⟩
+    | nil => exact ⟨[], by simp [hc]⟩
     | cons a z ih =>
       obtain ⟨y, hy⟩ := ih
       by_cases ha : isWs a = true
-      · exact ⟨y, by simp [List.dropWhile_cons, ha, hy]⟩
-      · exact ⟨a :: z, by simp [List.dropWhile_cons, ha]⟩
+      · exact ⟨y, by simp [ha, hy]⟩
+      · exact ⟨a :: z, by simp [ha]⟩
   obtain ⟨y, hy⟩ := this r.reverse
   exact ⟨y.reverse, by rw [hy]; simp⟩
 
@@ -143,6 +147,22 @@ theorem lstep_qv (orig : Bytes) (b : UInt8) (nx : Bool) (pos : Nat) (st : LSt) (
     simp [hsp, hq, hs, hp, h1, this]
     cases st; simp_all
 
+/-- optional whitespace (a space or a tab) leaves the state alone wherever the grammar allows it: outside a weight,
+and inside one as long as the previous byte was not the `q` of `q=` -/
+theorem lstep_ws (orig : Bytes) (b : UInt8) (hb : isWs b = true) (nx : Bool) (pos : Nat) (st : LSt)
+    (h : st.inQuality = false ∨ st.prevQ = false) : lstep orig b nx pos st = st := by
+  simp only [isWs, Bool.or_eq_true, beq_iff_eq] at hb
+  rcases hb with rfl | rfl
+  · exact lstep_space orig nx pos st
+  · rcases h with h | h
+    · exact lstep_name orig 9 nx pos st h (by decide) (by decide)
+    · cases hq : st.inQuality with
+      | false => exact lstep_name orig 9 nx pos st hq (by decide) (by decide)
+      | true =>
+        unfold lstep
+        simp [hq, h, SP, SEMI, COMMA, EQ, LQ, isDigit]
+        cases st; simp_all
+
 theorem lgo_neutral (orig : Bytes) (st : LSt) : ∀ (seg rest : Bytes) (pos : Nat),
     (∀ b ∈ seg, ∀ nx p, lstep orig b nx p st = st) → lgo orig (seg ++ rest) pos st = lgo orig rest (pos + seg.length) st := by
   intro seg
@@ -154,10 +174,9 @@ theorem lgo_neutral (orig : Bytes) (st : LSt) : ∀ (seg rest : Bytes) (pos : Na
     simp only [List.length_cons]
     congr 1; omega
 
-theorem lgo_spaces (orig : Bytes) (st : LSt) (n : Nat) (rest : Bytes) (pos : Nat) :
-    lgo orig (sp n ++ rest) pos st = lgo orig rest (pos + n) st := by
-  have := lgo_neutral orig st (sp n) rest pos (fun b hb nx p => by rw [mem_sp hb]; exact lstep_space orig nx p st)
-  rw [this, sp_length]
+theorem lgo_ows (orig : Bytes) (st : LSt) (w : Bytes) (hw : Ows w) (h : st.inQuality = false ∨ st.prevQ = false)
+    (rest : Bytes) (pos : Nat) : lgo orig (w ++ rest) pos st = lgo orig rest (pos + w.length) st :=
+  lgo_neutral orig st w rest pos (fun b hb nx p => lstep_ws orig b (hw b hb) nx p st h)
 
 theorem slice_mid (x y z : Bytes) : sliceGet (x ++ y ++ z) x.length (x.length + y.length) = some y := by
   unfold sliceGet
@@ -185,15 +204,15 @@ def afterItem (st0 : LSt) (pos0 : Nat) (it : Item) : LSt :=
   match it.weight with
   | none => st0
   | some (a, b, _) =>
-    { st0 with endByte := pos0 + it.lead + it.name.length + a, inQuality := true, prevQ := false,
-               qStart := pos0 + it.lead + it.name.length + a + b + 3 }
+    { st0 with endByte := pos0 + it.lead.length + it.name.length + a.length, inQuality := true, prevQ := false,
+               qStart := pos0 + it.lead.length + it.name.length + a.length + b.length + 3 }
 
 theorem lgo_item (orig : Bytes) (it : Item) (hok : it.Ok) (rest : Bytes) (pos0 : Nat) (st0 : LSt)
     (hq : st0.inQuality = false) :
     lgo orig (it.render ++ rest) pos0 st0 = lgo orig rest (pos0 + it.render.length) (afterItem st0 pos0 it) := by
   unfold Item.render
   simp only [List.append_assoc]
-  rw [lgo_spaces]
+  rw [lgo_ows orig st0 it.lead hok.lead (.inl hq)]
   rw [lgo_neutral orig st0 it.name _ _ (fun b hb nx p => by
     have := hok.nameChars b hb
     exact lstep_name orig b nx p st0 hq this.2.2.2 this.2.2.1)]
@@ -201,29 +220,30 @@ theorem lgo_item (orig : Bytes) (it : Item) (hok : it.Ok) (rest : Bytes) (pos0 :
   cases hw : it.weight with
   | none =>
     simp only [List.nil_append]
-    rw [lgo_spaces]
-    simp only [List.length_append, sp_length, List.length_nil]
+    rw [lgo_ows orig st0 it.trail hok.trail (.inl hq)]
+    simp only [List.length_append, List.length_nil]
     congr 1; omega
   | some w =>
     obtain ⟨a, b, qv⟩ := w
     obtain ⟨_, hqv⟩ := hok.qv a b qv hw
+    obtain ⟨hwa, hwb⟩ := hok.wsA a b qv hw
     simp only [List.append_assoc, List.cons_append, List.nil_append]
-    rw [lgo_spaces]
+    rw [lgo_ows orig st0 a hwa (.inl hq)]
     -- `;`
-    rw [lgo, lstep_semi orig _ _ st0 hq, lgo_spaces]
+    rw [lgo, lstep_semi orig _ _ st0 hq, lgo_ows orig _ b hwb (.inr rfl)]
     -- `q`
     rw [lgo, lstep_q orig _ _ _ rfl]
     -- `=`
     rw [lgo, lstep_eq orig _ _ _ rfl rfl]
-    -- the q-value and the spaces after it
+    -- the q-value and the whitespace after it
     rw [lgo_neutral orig _ qv _ _ (fun c hc nx p => by
       have := hqv c hc
       exact lstep_qv orig c nx p _ rfl (by simp) rfl this.2.2.1 this.2.2.2)]
-    rw [lgo_spaces]
-    simp only [List.length_append, sp_length, List.length_cons, List.length_nil]
+    rw [lgo_ows orig _ it.trail hok.trail (.inr rfl)]
+    simp only [List.length_append, List.length_cons, List.length_nil]
     congr 1
     · omega
-    · have : pos0 + it.lead + List.length it.name + a + 1 + b + 1 + 1 = pos0 + it.lead + List.length it.name + a + b + 3 := by omega
+    · have : pos0 + it.lead.length + it.name.length + a.length + 1 + b.length + 1 + 1 = pos0 + it.lead.length + it.name.length + a.length + b.length + 3 := by omega
       rw [this]
 
 /-! ### the terminator: `,` or the end of the header -/
@@ -241,25 +261,29 @@ theorem lstep_comma (orig : Bytes) (nx : Bool) (p : Nat) (st : LSt) (hp : st.pre
 
 theorem lfin_eq (orig : Bytes) (st : LSt) : lfin orig st = emit orig st orig.length := rfl
 
-theorem slice_val (pre x post : Bytes) (m n s0 : Nat) (hs : s0 = pre.length ∨ (s0 = pre.length + 1 ∧ 1 ≤ m)) :
-    ∃ m', sliceGet (pre ++ (sp m ++ x ++ sp n ++ post)) s0 (pre.length + m + x.length + n) = some (sp m' ++ x ++ sp n) := by
+/-- the slice that holds an item's coding starts at the item, or one byte later if the item starts with a space -/
+theorem slice_val (pre x post w1 w2 : Bytes) (h1 : Ows w1) (s0 : Nat)
+    (hs : s0 = pre.length ∨ (s0 = pre.length + 1 ∧ w1.head? = some SP)) :
+    ∃ w1', Ows w1' ∧ sliceGet (pre ++ (w1 ++ x ++ w2 ++ post)) s0 (pre.length + w1.length + x.length + w2.length) = some (w1' ++ x ++ w2) := by
   rcases hs with rfl | ⟨rfl, hm⟩
-  · refine ⟨m, ?_⟩
-    have := slice_mid pre (sp m ++ x ++ sp n) post
-    simp only [List.length_append, sp_length, List.append_assoc] at this ⊢
+  · refine ⟨w1, h1, ?_⟩
+    have := slice_mid pre (w1 ++ x ++ w2) post
+    simp only [List.length_append, List.append_assoc] at this ⊢
     rw [← this]; congr 1; omega
-  · obtain ⟨k, rfl⟩ : ∃ k, m = k + 1 := ⟨m - 1, by omega⟩
-    refine ⟨k, ?_⟩
-    have := slice_mid (pre ++ [SP]) (sp k ++ x ++ sp n) post
-    simp only [List.length_append, sp_length, List.append_assoc, List.length_cons, List.length_nil, sp_succ,
-      List.cons_append, List.nil_append] at this ⊢
+  · obtain ⟨k, rfl⟩ : ∃ k, w1 = SP :: k := by
+      cases w1 with
+      | nil => simp at hm
+      | cons a k => simp only [List.head?_cons, Option.some.injEq] at hm; exact ⟨k, by rw [hm]⟩
+    refine ⟨k, (ows_cons h1).2, ?_⟩
+    have := slice_mid (pre ++ [SP]) (k ++ x ++ w2) post
+    simp only [List.length_append, List.append_assoc, List.length_cons, List.length_nil, List.cons_append, List.nil_append] at this ⊢
     rw [← this]; congr 1; omega
 
 /-- the item's value and quality, whatever the spacing -/
 theorem emit_item (orig pre tail : Bytes) (it : Item) (hok : it.Ok) (out : List (Bytes × Q)) (s0 : Nat)
     (horig : orig = pre ++ (it.render ++ tail))
     (hq0 : ∀ e, e ≤ orig.length → qOf orig 0 e = .one)
-    (hs : s0 = pre.length ∨ (s0 = pre.length + 1 ∧ 1 ≤ it.lead)) :
+    (hs : s0 = pre.length ∨ (s0 = pre.length + 1 ∧ it.lead.head? = some SP)) :
     emit orig (afterItem { startByte := s0, out := out } pre.length it) (pre.length + it.render.length) =
       out ++ [(it.name, it.q)] := by
   have hname : ∀ b ∈ it.name, isWs b = false := fun b hb =>
@@ -268,68 +292,68 @@ theorem emit_item (orig pre tail : Bytes) (it : Item) (hok : it.Ok) (out : List 
   cases hw : it.weight with
   | none =>
     simp only [↓reduceIte]
-    have hr : it.render = sp it.lead ++ it.name ++ sp it.trail := by simp [Item.render, Item.wt, hw]
-    obtain ⟨m', hm'⟩ := slice_val pre it.name tail it.lead it.trail s0 hs
-    have hlen : pre.length + it.render.length = pre.length + it.lead + it.name.length + it.trail := by
-      rw [hr]; simp only [List.length_append, sp_length]; omega
+    have hr : it.render = it.lead ++ it.name ++ it.trail := by simp [Item.render, Item.wt, hw]
+    obtain ⟨m', hm'o, hm'⟩ := slice_val pre it.name tail it.lead it.trail hok.lead s0 hs
+    have hlen : pre.length + it.render.length = pre.length + it.lead.length + it.name.length + it.trail.length := by
+      rw [hr]; simp only [List.length_append]; omega
     rw [hlen, horig, hr]
     simp only [List.append_assoc] at hm' ⊢
     rw [hm']
     simp only
-    rw [← List.append_assoc, trimWs_pad m' it.trail it.name hname]
-    have := hq0 (pre.length + it.lead + it.name.length + it.trail) (by
-      rw [horig, hr]; simp only [List.length_append, sp_length]; omega)
+    rw [← List.append_assoc, trimWs_pad m' it.trail hm'o hok.trail it.name hname]
+    have := hq0 (pre.length + it.lead.length + it.name.length + it.trail.length) (by
+      rw [horig, hr]; simp only [List.length_append]; omega)
     rw [horig, hr] at this
     simp only [List.append_assoc] at this
     rw [this]
   | some w =>
     obtain ⟨a, b, qv⟩ := w
     obtain ⟨_, hqv⟩ := hok.qv a b qv hw
+    obtain ⟨hwa, hwb⟩ := hok.wsA a b qv hw
     obtain ⟨c, r, hc, _⟩ := hok.nameHead
     have hnl : 1 ≤ it.name.length := by rw [hc]; simp
-    have hne : ¬ (pre.length + it.lead + it.name.length + a = 0) := by omega
+    have hne : ¬ (pre.length + it.lead.length + it.name.length + a.length = 0) := by omega
     simp only [hne, ↓reduceIte]
-    have hr : it.render = sp it.lead ++ it.name ++ sp a ++ ([SEMI] ++ sp b ++ [LQ, EQ] ++ qv ++ sp it.trail) := by
+    have hr : it.render = it.lead ++ it.name ++ a ++ ([SEMI] ++ b ++ [LQ, EQ] ++ qv ++ it.trail) := by
       simp [Item.render, Item.wt, hw]
     -- the value
-    obtain ⟨m', hm'⟩ := slice_val pre it.name ([SEMI] ++ sp b ++ [LQ, EQ] ++ qv ++ sp it.trail ++ tail) it.lead a s0 hs
-    have e1 : orig = pre ++ (sp it.lead ++ it.name ++ sp a ++ ([SEMI] ++ sp b ++ [LQ, EQ] ++ qv ++ sp it.trail ++ tail)) := by
+    obtain ⟨m', hm'o, hm'⟩ := slice_val pre it.name ([SEMI] ++ b ++ [LQ, EQ] ++ qv ++ it.trail ++ tail) it.lead a hok.lead s0 hs
+    have e1 : orig = pre ++ (it.lead ++ it.name ++ a ++ ([SEMI] ++ b ++ [LQ, EQ] ++ qv ++ it.trail ++ tail)) := by
       rw [horig, hr]; simp only [List.append_assoc]
     rw [e1, hm']
     simp only
-    rw [trimWs_pad m' a it.name hname]
+    rw [trimWs_pad m' a hm'o hwa it.name hname]
     -- the quality
-    have e2 : pre ++ (sp it.lead ++ it.name ++ sp a ++ ([SEMI] ++ sp b ++ [LQ, EQ] ++ qv ++ sp it.trail ++ tail)) =
-        (pre ++ sp it.lead ++ it.name ++ sp a ++ [SEMI] ++ sp b ++ [LQ, EQ]) ++ (qv ++ sp it.trail) ++ tail := by
+    have e2 : pre ++ (it.lead ++ it.name ++ a ++ ([SEMI] ++ b ++ [LQ, EQ] ++ qv ++ it.trail ++ tail)) =
+        (pre ++ it.lead ++ it.name ++ a ++ [SEMI] ++ b ++ [LQ, EQ]) ++ (qv ++ it.trail) ++ tail := by
       simp only [List.append_assoc]
-    have hsl := slice_mid (pre ++ sp it.lead ++ it.name ++ sp a ++ [SEMI] ++ sp b ++ [LQ, EQ]) (qv ++ sp it.trail) tail
-    have hl1 : (pre ++ sp it.lead ++ it.name ++ sp a ++ [SEMI] ++ sp b ++ [LQ, EQ]).length =
-        pre.length + it.lead + it.name.length + a + b + 3 := by
-      simp only [List.length_append, sp_length, List.length_cons, List.length_nil]; omega
-    have hl2 : pre.length + it.render.length = pre.length + it.lead + it.name.length + a + b + 3 + (qv ++ sp it.trail).length := by
-      rw [hr]; simp only [List.length_append, sp_length, List.length_cons, List.length_nil]; omega
+    have hsl := slice_mid (pre ++ it.lead ++ it.name ++ a ++ [SEMI] ++ b ++ [LQ, EQ]) (qv ++ it.trail) tail
+    have hl1 : (pre ++ it.lead ++ it.name ++ a ++ [SEMI] ++ b ++ [LQ, EQ]).length =
+        pre.length + it.lead.length + it.name.length + a.length + b.length + 3 := by
+      simp only [List.length_append, List.length_cons, List.length_nil]; omega
+    have hl2 : pre.length + it.render.length = pre.length + it.lead.length + it.name.length + a.length + b.length + 3 + (qv ++ it.trail).length := by
+      rw [hr]; simp only [List.length_append, List.length_cons, List.length_nil]; omega
     rw [hl1] at hsl
     unfold qOf
-    rw [e2, hl2, hsl]
+    rw [hl2, e2, hsl]
     simp only
-    have := trimWs_pad 0 it.trail qv (fun c hc => notWs_of c (hqv c hc).1 (hqv c hc).2.1)
-    simp only [sp, List.replicate_zero, List.nil_append] at this
-    simp only [sp]
+    have := trimWs_pad [] it.trail ows_nil hok.trail qv (fun c hc => notWs_of c (hqv c hc).1 (hqv c hc).2.1)
+    simp only [List.nil_append] at this
     rw [this]
 
 /-! ### all items -/
 
 theorem render_head (it : Item) (hok : it.Ok) (more : Bytes) :
-    ((it.render ++ more).head? == some SP) = decide (1 ≤ it.lead) := by
+    ((it.render ++ more).head? == some SP) = (it.lead.head? == some SP) := by
   unfold Item.render
   cases hl : it.lead with
-  | zero =>
+  | nil =>
     obtain ⟨c, r, hc, ha⟩ := hok.nameHead
     have hsp : c ≠ SP := by
       have := (alpha_facts c ha).2.2.2.2
       intro e; subst e; revert this; decide
-    simp [sp, hc, hsp]
-  | succ k => simp [sp_succ]
+    simp [hc, hsp]
+  | cons a k => simp
 
 theorem renderAll_cons (it : Item) (rest : List Item) : ∃ more, renderAll (it :: rest) = it.render ++ more := by
   cases rest with
@@ -339,7 +363,7 @@ theorem renderAll_cons (it : Item) (rest : List Item) : ∃ more, renderAll (it 
 theorem lgo_items : ∀ (items : List Item), items ≠ [] → (∀ it ∈ items, it.Ok) →
     ∀ (orig pre : Bytes) (out : List (Bytes × Q)) (s0 : Nat),
     orig = pre ++ renderAll items → (∀ e, e ≤ orig.length → qOf orig 0 e = .one) →
-    (s0 = pre.length ∨ (s0 = pre.length + 1 ∧ ∃ it rest, items = it :: rest ∧ 1 ≤ it.lead)) →
+    (s0 = pre.length ∨ (s0 = pre.length + 1 ∧ ∃ it rest, items = it :: rest ∧ it.lead.head? = some SP)) →
     lgo orig (renderAll items) pre.length { startByte := s0, out := out } = out ++ items.map (fun it => (it.name, it.q)) := by
   intro items
   induction items with
@@ -347,7 +371,7 @@ theorem lgo_items : ∀ (items : List Item), items ≠ [] → (∀ it ∈ items,
   | cons it rest ih =>
     intro _ hok orig pre out s0 horig hq0 hs
     have hokit := hok it (by simp)
-    have hs' : s0 = pre.length ∨ (s0 = pre.length + 1 ∧ 1 ≤ it.lead) := by
+    have hs' : s0 = pre.length ∨ (s0 = pre.length + 1 ∧ it.lead.head? = some SP) := by
       rcases hs with h | ⟨h, it', rest', e, hl⟩
       · exact .inl h
       · simp only [List.cons.injEq] at e; rw [← e.1] at hl; exact .inr ⟨h, hl⟩
@@ -370,51 +394,51 @@ theorem lgo_items : ∀ (items : List Item), items ≠ [] → (∀ it ∈ items,
       rw [emit_item orig pre ([COMMA] ++ renderAll (it2 :: rest2)) it hokit out s0
         (by rw [horig]; simp only [List.append_assoc]) hq0 hs']
       obtain ⟨more, hmore⟩ := renderAll_cons it2 rest2
-      have hnx : ((renderAll (it2 :: rest2)).head? == some SP) = decide (1 ≤ it2.lead) := by
+      have hnx : ((renderAll (it2 :: rest2)).head? == some SP) = (it2.lead.head? == some SP) := by
         rw [hmore]; exact render_head it2 (hok it2 (by simp)) more
       rw [hnx]
       have hpre : (pre ++ it.render ++ [COMMA]).length = pre.length + it.render.length + 1 := by
         simp only [List.length_append, List.length_cons, List.length_nil]
       have := ih (by simp) (fun x hx => hok x (by simp [hx])) orig (pre ++ it.render ++ [COMMA])
-        (out ++ [(it.name, it.q)]) (if decide (1 ≤ it2.lead) = true then pre.length + it.render.length + 2 else pre.length + it.render.length + 1)
+        (out ++ [(it.name, it.q)]) (if (it2.lead.head? == some SP) = true then pre.length + it.render.length + 2 else pre.length + it.render.length + 1)
         (by rw [horig]; simp only [List.append_assoc]) hq0 (by
           rw [hpre]
-          by_cases hl : 1 ≤ it2.lead
-          · right; simp only [hl, decide_true, ↓reduceIte, true_and]; exact ⟨it2, rest2, rfl, hl⟩
-          · left; simp [hl])
+          by_cases hl : it2.lead.head? = some SP
+          · right; simp only [hl, beq_self_eq_true, ↓reduceIte, true_and]; exact ⟨it2, rest2, rfl, hl⟩
+          · left
+            have : (it2.lead.head? == some SP) = false := by simpa using hl
+            simp [this])
       rw [hpre] at this
       rw [this]
       simp
 
-/-- the first byte that is not a space is a letter: no prefix of the header parses as a number -/
-theorem qOf_zero (n : Nat) (c : UInt8) (r : Bytes) (hc : isAlpha c = true) :
-    ∀ e, e ≤ (sp n ++ c :: r).length → qOf (sp n ++ c :: r) 0 e = .one := by
+/-- the first byte that is not whitespace is a letter: no prefix of the header parses as a number -/
+theorem qOf_zero (w : Bytes) (hw : Ows w) (c : UInt8) (r : Bytes) (hc : isAlpha c = true) :
+    ∀ e, e ≤ (w ++ c :: r).length → qOf (w ++ c :: r) 0 e = .one := by
   intro e he
   unfold qOf sliceGet
   rw [if_pos ⟨Nat.zero_le _, he⟩]
   simp only [List.drop_zero, Nat.sub_zero]
-  by_cases hen : e ≤ n
-  · have : (sp n ++ c :: r).take e = sp e := by
-      rw [List.take_append_of_le_length (by rw [sp_length]; exact hen)]
-      simp [sp, List.take_replicate, Nat.min_eq_left hen]
-    rw [this]
-    have := trimWs_pad e 0 [] (by simp)
-    simp only [sp, List.replicate_zero, List.append_nil] at this
-    simp only [sp]
+  by_cases hen : e ≤ w.length
+  · have htk : (w ++ c :: r).take e = w.take e := List.take_append_of_le_length hen
+    rw [htk]
+    have hwe : Ows (w.take e) := fun b hb => hw b (List.mem_of_mem_take hb)
+    have := trimWs_pad (w.take e) [] hwe ows_nil [] (by simp)
+    simp only [List.append_nil] at this
     rw [this]; exact qClass_nil
-  · have : (sp n ++ c :: r).take e = sp n ++ c :: r.take (e - n - 1) := by
-      rw [List.take_append, sp_length]
-      have : (sp n).take e = sp n := List.take_of_length_le (by rw [sp_length]; omega)
+  · have : (w ++ c :: r).take e = w ++ c :: r.take (e - w.length - 1) := by
+      rw [List.take_append]
+      have : w.take e = w := List.take_of_length_le (by omega)
       rw [this]
-      obtain ⟨k, hk⟩ : ∃ k, e - n = k + 1 := ⟨e - n - 1, by omega⟩
+      obtain ⟨k, hk⟩ : ∃ k, e - w.length = k + 1 := ⟨e - w.length - 1, by omega⟩
       rw [hk, List.take_succ_cons]
       simp
     rw [this]
-    obtain ⟨y, hy⟩ := trimWs_head n c (r.take (e - n - 1)) (alpha_facts c hc).2.2.2.2
+    obtain ⟨y, hy⟩ := trimWs_head w hw c (r.take (e - w.length - 1)) (alpha_facts c hc).2.2.2.2
     rw [hy]; exact qClass_alpha c y hc
 
 /-- **`list_header` reads a well-formed value-quality list as the grammar says**, for every list of items and every
-amount of optional whitespace around codings, `;`, q-values and `,`. -/
+amount of optional whitespace — spaces and tabs — around codings, `;`, q-values and `,`. -/
 theorem listHeader_render (items : List Item) (hne : items ≠ []) (hok : ∀ it ∈ items, it.Ok) :
     listHeader (renderAll items) = items.map (fun it => (it.name, it.q)) := by
   unfold listHeader
@@ -425,10 +449,10 @@ theorem listHeader_render (items : List Item) (hne : items ≠ []) (hok : ∀ it
       obtain ⟨more, hmore⟩ := renderAll_cons it rest
       obtain ⟨c, r, hc, ha⟩ := (hok it (by simp)).nameHead
       rw [hmore]
-      have : it.render ++ more = sp it.lead ++ c :: (r ++ it.wt ++ sp it.trail ++ more) := by
+      have : it.render ++ more = it.lead ++ c :: (r ++ it.wt ++ it.trail ++ more) := by
         simp [Item.render, hc]
       rw [this]
-      exact qOf_zero it.lead c _ ha
+      exact qOf_zero it.lead (hok it (by simp)).lead c _ ha
   have := lgo_items items hne hok (renderAll items) [] [] 0 (by simp) hq0 (.inl rfl)
   simpa using this
 
@@ -447,8 +471,25 @@ theorem disabled_not_acceptable (items : List Item) (hne : items ≠ []) (hok : 
   intro hn
   exact hz it hit hn
 
-/-! tests: the header of F29, `br;q=0 , gzip ;q=0.5` -/
-example : listHeader (renderAll [⟨0, [98, 114], some (0, 0, [48]), 1⟩, ⟨1, [103, 122, 105, 112], some (1, 0, [48, 46, 53]), 0⟩]) =
+/-! tests: the header of F29 with a tab thrown in, `br;q=0 ,<tab>gzip ;q=0.5` -/
+example : listHeader (renderAll [⟨[], [98, 114], some ([], [], [48]), [32]⟩, ⟨[9], [103, 122, 105, 112], some ([32], [], [48, 46, 53]), []⟩]) =
     [([98, 114], .zero), ([103, 122, 105, 112], .other)] := by decide +kernel
+
+/-- the premises are satisfiable by an item that uses tabs and spaces in every optional position -/
+example : (⟨[9, 32], [103, 122, 105, 112], some ([32, 9], [9], [48, 46, 53]), [9, 9]⟩ : Item).Ok where
+  nameHead := ⟨103, [122, 105, 112], rfl, by decide⟩
+  nameChars := by decide
+  qv := by
+    intro a b qv h
+    simp only [Option.some.injEq, Prod.mk.injEq] at h
+    obtain ⟨_, _, rfl⟩ := h
+    decide
+  lead := by unfold Ows; decide
+  trail := by unfold Ows; decide
+  wsA := by
+    intro a b qv h
+    simp only [Option.some.injEq, Prod.mk.injEq] at h
+    obtain ⟨rfl, rfl, _⟩ := h
+    unfold Ows; decide
 
 end Negotiate
